@@ -29,7 +29,8 @@ Definition coverage_ok (rows : list row) (decl : list (string * string * string)
   forallb (fun d => Nat.eqb (count_rows d rows) 1) decl
   && forallb (fun r => existsb (key3 (row_key r)) decl) rows.
 
-Definition table_ok : bool := forallb row_identity into_owned_table && coverage_ok into_owned_table declared_fields.
+Definition table_ok : bool :=
+  into_owned_section_ok && forallb row_identity into_owned_table && coverage_ok into_owned_table declared_fields.
 
 Lemma into_owned_table_ok : table_ok = true.
 Proof. vm_compute. reflexivity. Qed.
